@@ -25,6 +25,8 @@ ASSUMPTIONS = [
     "the nu update (special.psi + optimize.bisect) is an uninterpreted function of the Mahalanobis distances with contract nu > 0 or inf",
     "existence of the bisection bracket, convergence, parameter recovery (statistical) and strict positive-definiteness for degenerate data are outside the claim",
     "the dof fallback before the kernel is decided under C14 (symbolic finite/inf dof through ModeStatistics)",
+    "the finite-vs-infinite decision of the dof update is decided bit-precisely (QF_FP) for arbitrary Mahalanobis distances in [0, 1e4]: some weight (nu+d)/(nu+delta) must be able to differ from 1 (existential obligation)",
+    "the scale-concrete obligation uses 4 concrete points and the scalings (1/s, s), s in [1, 1e6]; numpy.linalg.pinv is modelled with its eigenvalue cut-off for d <= 2",
 ]
 
 
